@@ -17,7 +17,9 @@ func init() {
 			ruleDockerMatch(r)
 			ruleLabelRegexAnchoring(r)
 			ruleOpenLog(r)
+			ruleRecordOrigin(r)
 			ruleFetchContainers(r)
+			ruleMatcherLoop(r)
 			ruleSanitiserSites(r)
 		},
 	})
